@@ -351,7 +351,8 @@ class Consumer(object):
         def _handle_shutdown_commit_success(result):
             """Handle the result of the commit attempted by shutdown"""
             self._shutdown_d, d = None, self._shutdown_d
-            self.stop()
+            if not self._stopping:  # unless stop() is what got us here
+                self.stop()
             self._shuttingdown = False  # Shutdown complete
             d.callback(self._last_processed_offset)
 
@@ -364,12 +365,15 @@ class Consumer(object):
                 return
 
             self._shutdown_d, d = None, self._shutdown_d
-            self.stop()
+            if not self._stopping:  # unless stop() is what got us here
+                self.stop()
             self._shuttingdown = False  # Shutdown complete
             d.errback(failure)
 
         def _commit_and_stop(result):
             """Commit the current offsets (if needed) and stop the consumer"""
+            if self._stopping:  # stop() was called while we waited: give up
+                return _handle_shutdown_commit_failure(Failure(CancelledError()))
             if not self.consumer_group:  # No consumer group, no committing
                 return _handle_shutdown_commit_success(None)
 
